@@ -1,5 +1,6 @@
 (* Props/C08.v — property C08: symmetry under class swap, direction reversal and rescaling. Statements only. *)
-From SA Require Import Model.Symmetry Model.Threshold Proofs.SymmetryFacts Proofs.InvIncrFacts Proofs.EquivarianceFacts Proofs.NegationFacts.
+From SA Require Import Model.Symmetry Model.Threshold Proofs.SymmetryFacts Proofs.InvIncrFacts Proofs.EquivarianceFacts Proofs.NegationFacts Proofs.AucInvarianceFacts.
+From SA Require Import Model.Auc Model.Harness.
 Open Scope Q_scope.
 
 (* swap() exchanges the roles of the classes exactly: at EVERY threshold (incl. +-inf), for all score
@@ -78,6 +79,35 @@ Proof.
   - unfold interior2, interior, shifted; cbn; repeat split; reflexivity.
   - intros mt H. cbn [In] in H. repeat (destruct H as [<-|H]; [vm_compute; reflexivity|]). destruct H.
 Qed.
+
+(* the full AUC is unchanged by an increasing affine map of the scores and by reversing the score direction: both
+   sides equal their Mann-Whitney statistic (C07), which only compares scores across the classes.  Arbitrary ties,
+   easy samples, all four configurations, any carrier whose representable values contain both score sets.
+   (Invariance of the EER value and equivariance of the EER threshold are checked on the implementation only.) *)
+Theorem C08_full_auc_affine :
+  forall (isD : Q -> Prop) (succ pred : Q -> Q), carrier isD succ pred ->
+  forall (a b : Q) (s : scores), 0 < a ->
+  pos s <> [] -> neg s <> [] -> (0 <= easy_pos s)%Z -> (0 <= easy_neg s)%Z ->
+  Forall isD (pos s ++ neg s) -> Forall isD (map (fun x => a * x + b) (pos s ++ neg s)) ->
+  auc succ pred (affine_scores a b s) 0 1 AFpr ATpr == auc succ pred s 0 1 AFpr ATpr.
+Proof. exact full_auc_affine. Qed.
+Print Assumptions C08_full_auc_affine.
+
+Theorem C08_full_auc_negate :
+  forall (isD : Q -> Prop) (succ pred : Q -> Q), carrier isD succ pred ->
+  forall (s : scores),
+  pos s <> [] -> neg s <> [] -> (0 <= easy_pos s)%Z -> (0 <= easy_neg s)%Z ->
+  Forall isD (pos s ++ neg s) -> Forall isD (map Qopp (pos s ++ neg s)) ->
+  auc succ pred (neg_scores s) 0 1 AFpr ATpr == auc succ pred s 0 1 AFpr ATpr.
+Proof. exact full_auc_negate. Qed.
+Print Assumptions C08_full_auc_negate.
+
+(* binary64 instance with a cross-class tie and easy samples *)
+Example C08_auc_example :
+  let s := mk_scores [3#1; 1#1; 3#1; 5#1] [4#1; 0#1; 3#1] 1 2 Pos Neg false in
+  Qeqb (auc succ64 pred64 (affine_scores (2#1) (1#2) s) 0 1 AFpr ATpr) (auc succ64 pred64 s 0 1 AFpr ATpr)
+  && Qeqb (auc succ64 pred64 (neg_scores s) 0 1 AFpr ATpr) (auc succ64 pred64 s 0 1 AFpr ATpr) = true.
+Proof. vm_compute. reflexivity. Qed.
 
 Example C08_example :
   cm (swap (mk_scores [1#1; 3#1] [2#1] 1 0 Pos Neg false)) (Fin (2#1)) = mkCmz 1 0 1 2.
